@@ -88,7 +88,7 @@ def allow_key(ctx: Ctx, f: FunctionInfo, hn: Node) -> Tuple[str, str]:
         gn = guarded_names(ctx, f, hn.stmt)
         if gn:
             cs = "Exception#" + "+".join(gn)
-    return (top.qname, cs)
+    return (ctx.prog.anchor(top), cs)
 
 
 def r1(ctx: Ctx) -> None:
@@ -112,7 +112,7 @@ def r1(ctx: Ctx) -> None:
             reason = SWALLOW_OK.get(k)
             if reason is None:
                 for o in owner_tops(ctx, f):
-                    reason = reason or SWALLOW_OK.get((o.qname, k[1]))
+                    reason = reason or SWALLOW_OK.get((ctx.prog.anchor(o), k[1]))
             if reason is None and cleanup_in_reraising_handler(ctx, f, hn):
                 reason = "best-effort cleanup nested in a handler that re-raises the original error on every path"
             ctx.ob("C14.R1", f, handler_key(ctx, f, hn), hn, reason is not None,
